@@ -21,8 +21,9 @@ def check(run, only=None):
     if only in (None, "P"):
         from vlib.companions import parserfuncs as pf
         pcommon.add_proof(run, "C07", ["parglare.parser.Parser._lexical_disambiguation", "parglare.parser.Parser._next_token",
-                                       "parglare.parser.Parser._token_recognition"],
-                          [pf.run_misc, pf.run_recovery, pf.run_scanner],
+                                       "parglare.parser.Parser._token_recognition",
+                                       "parglare.parser.Parser._next_tokens@plain"],
+                          [pf.run_misc, pf.run_recovery, pf.run_scanner, pf.run_next_tokens],
                           "_lexical_disambiguation: identity on <= 1 candidates, survivors are candidates of maximal match "
                           "length, prefer excludes non-preferred; _next_token: none -> None, one -> it, several -> "
                           "DisambiguationError; _token_recognition: every token is a match of a terminal expected in the state "
